@@ -805,7 +805,6 @@ pub fn what_line(dec: Decoder, class: &str, input: &[u8], msg: &str) -> String {
 
 struct Runner<'a> {
     cfg: &'a Cfg,
-    ann: &'a mut Announcer,
     pool: &'a mut decoders::Pool,
     evals: u64,
 }
@@ -813,9 +812,19 @@ struct Runner<'a> {
 impl Runner<'_> {
     /// does `cand` still produce signature `sig`?
     fn still(&mut self, dec: Decoder, dt: Option<DynamicType<'static>>, idx: u64, class: &str, cand: &[u8], sig: &str) -> bool {
-        self.ann.announce(idx, dec.id(), 1, class, cand);
         self.evals += 1;
-        let run = self.pool.run(dec, dt, cand, decoders::bound(self.cfg.k, self.cfg.c, cand.len()));
+        let run = self.pool.run(
+            dec,
+            dt,
+            decoders::Spec {
+                idx,
+                flags: 1,
+                class,
+                input: cand,
+            },
+            self.cfg.k,
+            self.cfg.c,
+        );
         decoders::verdicts(dec, class, &run)
             .iter()
             .any(|v| matches!(v, Verdict::Violation { sig: s, .. } if s == sig))
@@ -825,7 +834,6 @@ impl Runner<'_> {
 /// Shrink `input` while signature `sig` persists (bounded budget).
 fn shrink(
     cfg: &Cfg,
-    ann: &mut Announcer,
     pool: &mut decoders::Pool,
     dec: Decoder,
     dt: Option<DynamicType<'static>>,
@@ -834,7 +842,7 @@ fn shrink(
     input: &[u8],
     sig: &str,
 ) -> (Vec<u8>, u64) {
-    let mut rn = Runner { cfg, ann, pool, evals: 0 };
+    let mut rn = Runner { cfg, pool, evals: 0 };
     // every probe of a cap finding gives up a thread: keep those few
     let budget = if sig.starts_with("abort|") {
         (cfg.shrink_budget as u64).min(60)
@@ -927,11 +935,10 @@ pub struct ChildState {
     pub samples_sent: HashSet<String>,
 }
 
-/// Run one input through the decoder, classify, report. Returns the outcome label.
+/// Classify and report the outcome `run` of case `idx` (shrinks a new finding).
 #[allow(clippy::too_many_arguments)]
-pub fn exec_case(
+pub fn post_case(
     cfg: &Cfg,
-    ann: &mut Announcer,
     pool: &mut decoders::Pool,
     out: &mut impl Write,
     agg: &mut Agg,
@@ -941,16 +948,12 @@ pub fn exec_case(
     dt: Option<DynamicType<'static>>,
     idx: u64,
     case: &Case,
+    run: decoders::Run,
     do_shrink: bool,
 ) {
     let input = &case.input;
     let class = case.class.as_str();
-    ann.announce(idx, dec.id(), 0, class, input);
-    let limit = decoders::bound(cfg.k, cfg.c, input.len());
-    let trun = std::time::Instant::now();
-    let run = pool.run(dec, dt, input, limit);
-    let run_us = trun.elapsed().as_micros();
-    agg.stat("us.decode_call", run_us as i128);
+    let run_us = 0u128;
     agg.n += 1;
     if alloc_track::bt_cache_has_new() {
         for (k, b) in alloc_track::bt_cache_export_new() {
@@ -1084,13 +1087,23 @@ pub fn exec_case(
                 st.known.insert(sig.clone());
                 if do_shrink && cfg.shrink_budget > 0 {
                     let tsh = std::time::Instant::now();
-                    let (small, evals) = shrink(cfg, ann, pool, dec, dt, idx, class, input, sig);
+                    let (small, evals) = shrink(cfg, pool, dec, dt, idx, class, input, sig);
                     agg.stat("shrink_evaluations", evals as i128);
                     agg.stat("us.shrink", tsh.elapsed().as_micros() as i128);
                     if small.len() <= input.len() && small != *input {
                         // message of the minimized input
-                        ann.announce(idx, dec.id(), 1, class, &small);
-                        let run2 = pool.run(dec, dt, &small, decoders::bound(cfg.k, cfg.c, small.len()));
+                        let run2 = pool.run(
+                            dec,
+                            dt,
+                            decoders::Spec {
+                                idx,
+                                flags: 1,
+                                class,
+                                input: &small,
+                            },
+                            cfg.k,
+                            cfg.c,
+                        );
                         let msg2 = decoders::verdicts(dec, class, &run2)
                             .into_iter()
                             .find_map(|v| match v {
@@ -1173,7 +1186,7 @@ fn child_body(args: &vcore::Args) -> i32 {
         shrink_budget: args.u64("shrink-budget", 400) as usize,
     };
     let ann_path = args.str("ann", "");
-    let mut ann = match Announcer::open(&ann_path) {
+    let ann = match Announcer::open(&ann_path) {
         Ok(a) => a,
         Err(e) => {
             eprintln!("c07 child: cannot open announce file {}: {}", ann_path, e);
@@ -1210,19 +1223,22 @@ fn child_body(args: &vcore::Args) -> i32 {
         agg.stat("backtrace_cache_imported", entries.len() as i128);
         alloc_track::bt_cache_import(entries);
     }
-    let mut pool = decoders::Pool::new((args.u64("stack-mib", 8) as usize) << 20);
+    let mut pool = decoders::Pool::new((args.u64("stack-mib", 8) as usize) << 20, ann);
     if args.has("replay-one") {
-        return replay_one(&cfg, &mut ann, &mut pool, &mut out, &mut agg, &mut st, &args.str("replay-one", ""));
+        return replay_one(&cfg, &mut pool, &mut out, &mut agg, &mut st, &args.str("replay-one", ""));
     }
 
     let from = args.u64("from", 0);
     let to = args.u64("to", 0);
+    let batch = args.u64("batch", 32).max(1);
     let ctx_path = args.str("ctx", "");
+    let debug = std::env::var_os("C07_DEBUG").is_some();
     let mut blk: Option<BlockCtx> = None;
-    for idx in from..to {
+    let mut idx = from;
+    while idx < to {
         let b = idx / BLOCK;
         if blk.as_ref().map(|c| c.id) != Some(b) {
-            ann.announce(idx, DEC_SETUP, 0, "setup", &[]);
+            pool.announce(idx, DEC_SETUP, 0, "setup", &[]);
             let ts = std::time::Instant::now();
             let c = setup_block(&cfg, b, &mut agg);
             agg.stat("us.block_setup", ts.elapsed().as_micros() as i128);
@@ -1235,40 +1251,60 @@ fn child_body(args: &vcore::Args) -> i32 {
             blk = Some(c);
         }
         let ctx = blk.as_ref().unwrap();
-        ann.announce(idx, DEC_SETUP, 0, "generate", &[]);
+        // a batch stays inside its block and ends on a multiple of the batch size
+        let end = to.min((b + 1) * BLOCK).min((idx / batch + 1) * batch);
+        // 1. generate the inputs of the batch
         let tg = std::time::Instant::now();
-        let made = quiet(|| make_case(&cfg, ctx, idx, &mut agg));
-        agg.stat("us.generate", tg.elapsed().as_micros() as i128);
-        let case = match made {
-            Ok(c) => c,
-            Err(e) => {
-                agg.stat("generator_panics", 1);
-                agg.inconclusive(format!("harness: input generator panicked at case {}: {}", idx, e));
-                continue;
+        let mut cases: Vec<(u64, Case)> = Vec::with_capacity((end - idx) as usize);
+        for i in idx..end {
+            pool.announce(i, DEC_SETUP, 0, "generate", &[]);
+            match quiet(|| make_case(&cfg, ctx, i, &mut agg)) {
+                Ok(c) => cases.push((i, c)),
+                Err(e) => {
+                    agg.stat("generator_panics", 1);
+                    agg.inconclusive(format!("harness: input generator panicked at case {}: {}", i, e));
+                }
             }
-        };
-        let te = std::time::Instant::now();
-        exec_case(&cfg, &mut ann, &mut pool, &mut out, &mut agg, &mut st, Some(ctx), ctx.dec, ctx.dt, idx, &case, true);
-        agg.stat("us.execute_and_shrink", te.elapsed().as_micros() as i128);
-        agg.stat(&format!("us.exec.{}", ctx.dec.name()), te.elapsed().as_micros() as i128);
-        if te.elapsed().as_millis() > 50 && std::env::var_os("C07_DEBUG").is_some() {
+        }
+        agg.stat("us.generate", tg.elapsed().as_micros() as i128);
+        // 2. decode them on the decoder thread (each announced right before its call)
+        let td = std::time::Instant::now();
+        let specs: Vec<decoders::Spec> = cases
+            .iter()
+            .map(|(i, c)| decoders::Spec {
+                idx: *i,
+                flags: 0,
+                class: &c.class,
+                input: &c.input,
+            })
+            .collect();
+        let runs = pool.run_batch(ctx.dec, ctx.dt, &specs, cfg.k, cfg.c);
+        drop(specs);
+        agg.stat("us.decode_batches", td.elapsed().as_micros() as i128);
+        if debug && td.elapsed().as_millis() > 200 {
             eprintln!(
-                "[c07 child] slow case {} {} class={} len={} took {} ms",
+                "[c07 child] slow batch {}..{} {} took {} ms",
                 idx,
+                end,
                 ctx.dec.name(),
-                case.class,
-                case.input.len(),
-                te.elapsed().as_millis()
+                td.elapsed().as_millis()
             );
         }
-        if pool.threads_given_up >= 400 {
+        // 3. classify, report, shrink
+        let tp = std::time::Instant::now();
+        for ((i, case), run) in cases.iter().zip(runs.into_iter()) {
+            post_case(&cfg, &mut pool, &mut out, &mut agg, &mut st, Some(ctx), ctx.dec, ctx.dt, *i, case, run, true);
+        }
+        agg.stat("us.classify_and_shrink", tp.elapsed().as_micros() as i128);
+        idx = end;
+        if pool.threads_given_up >= 400 && idx < to {
             // enough parked threads in this process: let the parent start a fresh one
             agg.flush(&mut out);
-            let _ = writeln!(out, "{}", Json::obj().set("t", "done").set("next", idx + 1).to_string());
+            let _ = writeln!(out, "{}", Json::obj().set("t", "done").set("next", idx).to_string());
             let _ = out.flush();
             return 0;
         }
-        if (idx + 1) % 64 == 0 {
+        if idx % 64 == 0 {
             agg.flush(&mut out);
         }
     }
@@ -1283,7 +1319,6 @@ fn child_body(args: &vcore::Args) -> i32 {
 
 fn replay_one(
     cfg: &Cfg,
-    ann: &mut Announcer,
     pool: &mut decoders::Pool,
     out: &mut impl Write,
     agg: &mut Agg,
@@ -1323,7 +1358,7 @@ fn replay_one(
         objects: vec![],
     };
     if dec == Decoder::Xtypes {
-        ann.announce(idx, DEC_SETUP, 0, "setup", &[]);
+        pool.announce(idx, DEC_SETUP, 0, "setup", &[]);
         let tj = j.get("type").cloned().unwrap_or(Json::Null);
         match model::ty_from_json(&tj) {
             Ok(ty) => match quiet(|| dustglue::build_type(&ty)) {
@@ -1353,7 +1388,19 @@ fn replay_one(
         kinds: vec![],
         orig: None,
     };
-    exec_case(cfg, ann, pool, out, agg, st, Some(&ctx), dec, ctx.dt, idx, &case, false);
+    let run = pool.run(
+        dec,
+        ctx.dt,
+        decoders::Spec {
+            idx,
+            flags: 0,
+            class: &case.class,
+            input: &case.input,
+        },
+        cfg.k,
+        cfg.c,
+    );
+    post_case(cfg, pool, out, agg, st, Some(&ctx), dec, ctx.dt, idx, &case, run, false);
     agg.flush(out);
     let _ = writeln!(out, "{}", Json::obj().set("t", "done").set("next", idx + 1).to_string());
     let _ = out.flush();
